@@ -45,26 +45,22 @@ Fixpoint traverse (route : list nat) (v : gval) : option gval :=
     end
   end.
 
-(* obj/empty.go isEmptyValue *)
-Fixpoint is_empty (fuel : nat) (v : gval) : bool :=
-  match fuel with
-  | O => false
-  | S f =>
-    match v with
-    | GVBool b => negb b
-    | VNum z => z =? 0
-    | GVFlt b => (b =? 0) || (b =? 9223372036854775808)
-    | GVStr s => match s with [] => true | _ => false end
-    | VBytes o => match o with None | Some [] => true | _ => false end
-    | VByteArr s => match s with [] => true | _ => false end
-    | VSlice o => match o with None | Some [] => true | _ => false end
-    | GVArr l => match l with [] => true | _ => false end
-    | GVMap o => match o with None | Some [] => true | _ => false end
-    | VPtr o => match o with None => true | _ => false end
-    | VAny o => match o with None => true | _ => false end
-    | VStruct fs => forallb (is_empty f) fs
-    | VBadV => false
-    end
+(* obj/empty.go isEmptyValue (structural: a struct is empty when all its fields are) *)
+Fixpoint is_empty (v : gval) : bool :=
+  match v with
+  | GVBool b => negb b
+  | VNum z => z =? 0
+  | GVFlt b => (b =? 0) || (b =? 9223372036854775808)
+  | GVStr s => match s with [] => true | _ => false end
+  | VBytes o => match o with None | Some [] => true | _ => false end
+  | VByteArr s => match s with [] => true | _ => false end
+  | VSlice o => match o with None | Some [] => true | _ => false end
+  | GVArr l => match l with [] => true | _ => false end
+  | GVMap o => match o with None | Some [] => true | _ => false end
+  | VPtr o => match o with None => true | _ => false end
+  | VAny o => match o with None => true | _ => false end
+  | VStruct fs => (fix all (l : list gval) : bool := match l with [] => true | x :: r => is_empty x && all r end) fs
+  | VBadV => false
   end.
 
 Definition retag (tg : option Z) (ts : list token) : list token :=
@@ -208,7 +204,7 @@ Section M.
                         negb (fe_ignore fe) &&
                         match traverse (fe_route fe) v with
                         | None => false
-                        | Some fv => negb (fe_omit fe && is_empty f fv)
+                        | Some fv => negb (fe_omit fe && is_empty fv)
                         end) fields in
           mprepend [Tok (MapOpen (Z.of_nat (length live))) (ae_tag e)] (marshal_fields f live v)
       | EUnion members =>
